@@ -194,7 +194,7 @@ let oracle_run (cfg : Model.cfg) (hooks : Model.hooks) (steps : Sexp.t list)
        let w' = match will_verdict s.cid with
          | Model.MAccept -> (if hooks.Model.h_will_on && List.exists (fun (c, _) -> c = bytes_of_atom s.cid) hooks.Model.h_will then hit "Wa" else hit "W"); Some w
          | Model.MDrop -> hit "Wd"; if mutant = 5 then Some w else None
-         | Model.MRewrite (t, p, q) -> hit "Ww"; Some { w with mt = atom_of_bytes t; mp = atom_of_bytes p; mq = int_of_n q }
+         | Model.MRewrite (t, p, q) -> hit "Ww"; Some { w with mt = atom_of_bytes t; mp = atom_of_bytes p; mq = int_of_n q mod 4; mr = (match int_of_n q / 4 with 0 -> w.mr | 1 -> false | _ -> true) }
          | Model.MReject _ -> raise (Oof "reject in will hook") in
        (match w' with
         | None -> ()
@@ -437,7 +437,8 @@ let oracle_run (cfg : Model.cfg) (hooks : Model.hooks) (steps : Sexp.t list)
                   end
                 | Model.MRewrite (t', p', q') ->
                   hit "Mw"; if m.mr then hit "MwR";
-                  let m' = { m with mt = atom_of_bytes t'; mp = atom_of_bytes p'; mq = int_of_n q' } in
+                  let m' = { m with mt = atom_of_bytes t'; mp = atom_of_bytes p'; mq = int_of_n q' mod 4; mr = (match int_of_n q' / 4 with 0 -> m.mr | 1 -> false | _ -> true) } in
+                  if m'.mr <> m.mr then hit "MwF";
                   if would () || deliver m' s.cid <> [] then hit "Mw+";
                   go (if mutant = 4 then m else m')
                 | Model.MAccept -> hit "Ma"; go m)
